@@ -6,7 +6,7 @@ from fractions import Fraction
 from hypothesis import strategies as st
 
 from .. import snapshot
-from ..env import Env, pev
+from ..env import hot, Env, pev
 from ..law import Law, Violation, Skip
 from ..ref import dates as rd
 from ..values import dec, enc, is_err
@@ -215,7 +215,13 @@ def check_add_days(case):
     n = case['n']
     if a < rd.MAR1_1900:
         raise Skip('start-before-1mar1900')
-    if case.get('derived'):
+    if case.get('derived') == 1 and isinstance(n, int):
+        # the host computes money with five significant digits in this thread; date arithmetic is not its business
+        import decimal
+        with decimal.localcontext() as ctx:
+            ctx.prec = 5
+            return check_add_days(dict(case, derived=3))
+    if case.get('derived') in (1, 2):
         from ..values import SubDatetime, SubInt, SubFloat
         a = SubDatetime.of(a)
         if case['derived'] == 2 and not isinstance(n, bool):
@@ -254,6 +260,33 @@ def check_add_days(case):
             wants = [rd.from_serial_exact(rd.serial_exact(a) + sign * Fraction(o)) for o in offs]
             if r['error'] is not None or not isinstance(g, list) or len(g) != 3 or not all(close_dt(x, w) for x, w in zip(g, wants)):
                 raise Violation('%s with v_a=%s and offsets %r -> %r, expected the dates %s' % (f, a, offs, r['error'] or g, [str(w) for w in wants]), r['error'] or enc(g), enc(wants))
+
+
+# ---------------------------------------------------------------- around the day that does not exist (serial 60), in any order
+
+LEAP_STEPS = ['YEAR(60)', 'DATE(1900,3,2)-2', 'DAY(60.5)', 'N(DATE(1900,3,1))', 'DATE(1900,3,1)+1', 'YEAR(61)', 'DATE(1900,2,28)+1', 'DATEVALUE("1900-03-01")', 'MONTH(59)', 'DATE(1900,3,1)-1', 'DAYS(61,60)', 'HOUR(60.25)']
+LEAP_FACTS = [('N(DATE(1900,3,1))', 61), ('DATE(1900,3,2)-DATE(1900,3,1)', 1), ('DATE(1900,3,1)-DATE(1900,2,28)', 2), ('DATE(1900,3,1)=61', True), ('DATE(1900,3,1)>60', True), ('DAY(DATE(1900,3,1)+1)', 2), ('N(DATE(1900,2,28))', 59)]
+
+
+def enum_leap(tier, shard, nshards):
+    import itertools
+    n = 0
+    for r in (2, 3):
+        for perm in itertools.permutations(range(len(LEAP_STEPS)), r):
+            n += 1
+            if n % nshards == shard and (tier == 'thorough' or n % 7 == 0):
+                yield list(perm)
+
+
+def check_leap(case):
+    P = hot().Parser()
+    for i in case:
+        P.parse(LEAP_STEPS[i])
+        for f, want in LEAP_FACTS:
+            r = P.parse(f)
+            if r['error'] is not None or r['result'] != want:
+                raise Violation('after %r (in this order, in a process that has evaluated other formulas before) %s gives %r instead of %r' % ([LEAP_STEPS[j] for j in case[:case.index(i) + 1]], f, r['error'] or r['result'], want),
+                                r['error'] or enc(r['result']), want)
 
 
 # ---------------------------------------------------------------- the process time zone does not matter
@@ -343,6 +376,8 @@ LAWS = [
     Law('add_days', check_add_days, strategy=st.fixed_dictionaries({'d': dt_strategy(rd.MAR1_ORD), 'n': offsets, 'derived': st.sampled_from([0, 0, 0, 1, 2])}), quick=2000, thorough=100000,
         nontrivial=lambda c: c['n'] not in (0, 1) ,
         rule='date-time >= 1 March 1900 and offset n (boundary set, +-3e6 integers, dyadic fractions): date+n, n+date, date-n equal the reference date within 1 ms when it lies in 1 March 1900..9999, also element-wise over an array of offsets; in 2 of 5 cases the date-time (and the offset) are instances of classes that derive from datetime (int, float)'),
+    Law('leap_day_histories', check_leap, enumerate=enum_leap, shards=(8, 16),
+        rule='2-3 of 12 formulas that convert serials 59, 60, 60.25, 60.5, 61 and the dates around 1 March 1900, in every order (a seventh of the 1452 orders in quick): after each step seven facts about 1 March 1900 (serial 61, one day after 28 February + 1, ...) must hold'),
     Law('timezone_independence', check_tz, enumerate=enum_tz, shards=(3, 6), guard=400,
         rule='22 formulas over dates, serials, differences and date text are evaluated in a brand-new interpreter under TZ=UTC and under a zone with daylight saving (New York, London, Lord Howe; in thorough also Tokyo, St John\'s, Apia): every outcome is the same'),
     Law('difference', check_difference, strategy=st.one_of(st.tuples(dt_strategy(rd.MAR1_ORD), dt_strategy(rd.MAR1_ORD)), st.tuples(dt_strategy(rd.MAR1_ORD), dt_strategy(rd.MAR1_ORD)),
